@@ -350,6 +350,35 @@ func mdWith(binding, loc string, respLoc *string) []byte {
 		ep("AssertionConsumerService", true) + `</md:SPSSODescriptor></md:EntityDescriptor>`)
 }
 
+// endpointOracle: the property's own words for one parsed endpoint element — with a standard binding, an accepted element
+// carries the Location it was given and that is an http(s) URL (likewise a non-empty ResponseLocation); with any other
+// binding both come out blank
+func endpointOracle(bnd, loc string, rl *string, accepted bool, gotLoc string, gotRL *string) string {
+	if !accepted {
+		return ""
+	}
+	known := bnd == saml.HTTPPostBinding || bnd == saml.HTTPRedirectBinding || bnd == saml.HTTPArtifactBinding || bnd == saml.SOAPBinding || bnd == saml.SOAPBindingV1
+	httpish := func(s string) bool {
+		lw := strings.ToLower(s)
+		return strings.HasPrefix(lw, "http:") || strings.HasPrefix(lw, "https:")
+	}
+	if !known {
+		if gotLoc != "" || (gotRL != nil && *gotRL != "") {
+			return fmt.Sprintf("key=endpoint-unknown-binding Location %q / ResponseLocation kept for unknown binding %q", gotLoc, bnd)
+		}
+		return ""
+	}
+	if gotLoc != loc || !httpish(gotLoc) {
+		return fmt.Sprintf("key=endpoint-scheme element with binding %s and Location %q accepted, Location read as %q", bnd, loc, gotLoc)
+	}
+	if rl != nil && *rl != "" {
+		if gotRL == nil || *gotRL != *rl || !httpish(*gotRL) {
+			return fmt.Sprintf("key=endpoint-scheme element with binding %s and ResponseLocation %q accepted", bnd, *rl)
+		}
+	}
+	return ""
+}
+
 func (c *Ctx) endpointCases() {
 	locs := append([]string{}, locations...)
 	extra := 100
@@ -417,7 +446,7 @@ func (c *Ctx) endpointCases() {
 				if err := xml.Unmarshal([]byte(x), &ep); err == nil {
 					impl = "ok " + encBytes([]byte(ep.Location)) + " " + encBytes([]byte(ep.ResponseLocation))
 				}
-				c.emitOneWay("endpoint2", []string{encStr(bnd), encBytes([]byte(loc)), encBytes([]byte(rl))}, impl, "")
+				c.emitOneWay("endpoint2", []string{encStr(bnd), encBytes([]byte(loc)), encBytes([]byte(rl))}, impl, endpointOracle(bnd, loc, &rl, impl != "err", ep.Location, &ep.ResponseLocation))
 				var iep saml.IndexedEndpoint
 				rattr := ` ResponseLocation="` + xmlAttrEsc(rl) + `"`
 				rtok := []string{"+", encBytes([]byte(rl))}
@@ -434,7 +463,12 @@ func (c *Ctx) endpointCases() {
 						impl += " + " + encBytes([]byte(*iep.ResponseLocation))
 					}
 				}
-				c.emitOneWay("endpoint3", joinToks([]string{encStr(bnd), encBytes([]byte(loc))}, rtok), impl, "")
+				var rin *string
+				if rattr != "" {
+					r := rl
+					rin = &r
+				}
+				c.emitOneWay("endpoint3", joinToks([]string{encStr(bnd), encBytes([]byte(loc))}, rtok), impl, endpointOracle(bnd, loc, rin, impl != "err", iep.Location, iep.ResponseLocation))
 			}
 		}
 	}
